@@ -133,6 +133,9 @@ fn run_once(case: &C15Case, slow: u32) -> CaseResult {
                             if server_up {
                                 if tracked.len() >= limit {
                                     let oldest = tracked.remove(0);
+                                    if matches!(conns[oldest].1, Conn::LiveHalf(_)) {
+                                        labels.insert("evicted_mid_frame", ());
+                                    }
                                     conns[oldest].1 = Conn::Dead;
                                     evictions += 1;
                                 }
@@ -173,15 +176,43 @@ fn run_once(case: &C15Case, slow: u32) -> CaseResult {
                         continue;
                     }
                     let i = *i as usize % conns.len();
+                    if let Conn::LiveHalf(k) = conns[i].1 {
+                        let pending_tx = half_tx(i);
+                        let full = mbap_frame(pending_tx, 1, &[3, 0, 0, 0, 1]);
+                        let _ = conns[i].0.write_all(&full[k..]).await;
+                        match read_reply(&mut conns[i].0, pending_tx, wait).await {
+                            Probe::Answered(0xBEEF) => conns[i].1 = Conn::Live,
+                            other => {
+                                return Err(format!("op {}: completing the pending request on connection {} got {:?}", opi, i, other))
+                            }
+                        }
+                    }
                     if conns[i].1 == Conn::Live {
                         tx = tx.wrapping_add(1);
-                        match probe(&mut conns[i].0, 1, tx, wait).await {
-                            Probe::Answered(0xBEEF) => {}
-                            other => {
-                                return Err(format!(
-                                    "op {}: request on live connection {} got {:?}",
-                                    opi, i, other
-                                ))
+                        // sometimes a complete request plus the first bytes of the next one in
+                        // the same segment: the session is then left in the middle of a frame
+                        if opi % 4 == 1 {
+                            let mut seg = mbap_frame(tx, 1, &[3, 0, 0, 0, 1]);
+                            let next = mbap_frame(half_tx(i), 1, &[3, 0, 0, 0, 1]);
+                            let k = 1 + (opi % 9);
+                            seg.extend_from_slice(&next[..k]);
+                            let _ = conns[i].0.write_all(&seg).await;
+                            match read_reply(&mut conns[i].0, tx, wait).await {
+                                Probe::Answered(0xBEEF) => conns[i].1 = Conn::LiveHalf(k),
+                                other => {
+                                    return Err(format!("op {}: request on live connection {} got {:?}", opi, i, other))
+                                }
+                            }
+                            labels.insert("half_frame", ());
+                        } else {
+                            match probe(&mut conns[i].0, 1, tx, wait).await {
+                                Probe::Answered(0xBEEF) => {}
+                                other => {
+                                    return Err(format!(
+                                        "op {}: request on live connection {} got {:?}",
+                                        opi, i, other
+                                    ))
+                                }
                             }
                         }
                     }
@@ -195,8 +226,31 @@ fn run_once(case: &C15Case, slow: u32) -> CaseResult {
                         if tracked.len() >= 2 {
                             garbage_with_two_live = true;
                         }
-                        // protocol id 0x1234: must end this session only
-                        let _ = conns[i].0.write_all(&[0, 1, 0x12, 0x34, 0, 6, 1, 3, 0, 0, 0, 1]).await;
+                        // protocol id 0x1234: must end this session only. With a request half
+                        // received the bytes continue that frame: they spoil its protocol id when
+                        // that is still to come, otherwise the pending request is completed first.
+                        let bad = [0u8, 1, 0x12, 0x34, 0, 6, 1, 3, 0, 0, 0, 1];
+                        match conns[i].1 {
+                            Conn::LiveHalf(k) if k <= 2 => {
+                                let _ = conns[i].0.write_all(&bad[k..]).await;
+                                labels.insert("garbage_mid_frame", ());
+                            }
+                            Conn::LiveHalf(k) => {
+                                let pending_tx = half_tx(i);
+                                let full = mbap_frame(pending_tx, 1, &[3, 0, 0, 0, 1]);
+                                let _ = conns[i].0.write_all(&full[k..]).await;
+                                match read_reply(&mut conns[i].0, pending_tx, wait).await {
+                                    Probe::Answered(0xBEEF) => {}
+                                    other => {
+                                        return Err(format!("op {}: completing the pending request on connection {} got {:?}", opi, i, other))
+                                    }
+                                }
+                                let _ = conns[i].0.write_all(&bad).await;
+                            }
+                            _ => {
+                                let _ = conns[i].0.write_all(&bad).await;
+                            }
+                        }
                         conns[i].1 = Conn::Dead;
                         tracked.retain(|x| *x != i);
                     }
@@ -228,6 +282,9 @@ fn run_once(case: &C15Case, slow: u32) -> CaseResult {
                     }
                     server_up = false;
                     for c in conns.iter_mut() {
+                        if matches!(c.1, Conn::LiveHalf(_)) {
+                            labels.insert("stopped_mid_frame", ());
+                        }
                         c.1 = Conn::Dead;
                     }
                     tracked.clear();
@@ -236,6 +293,9 @@ fn run_once(case: &C15Case, slow: u32) -> CaseResult {
                     handle = None;
                     server_up = false;
                     for c in conns.iter_mut() {
+                        if matches!(c.1, Conn::LiveHalf(_)) {
+                            labels.insert("stopped_mid_frame", ());
+                        }
                         c.1 = Conn::Dead;
                     }
                     tracked.clear();
@@ -262,6 +322,11 @@ fn run_once(case: &C15Case, slow: u32) -> CaseResult {
                         }
                     }
                     Conn::LiveHalf(k) => {
+                        // a half-received request may stay pending across several operations
+                        // (evictions, shutdown): complete it only now and then
+                        if (opi + i) % 3 != 0 && opi + 1 < case.ops.len() {
+                            continue;
+                        }
                         // complete the pending frame: it must be answered as if sent in one piece
                         let pending_tx = half_tx(i);
                         let full = mbap_frame(pending_tx, 1, &[3, 0, 0, 0, 1]);
